@@ -99,8 +99,72 @@ def build(reg):
                  "ghost.n_onleave == old(ghost.n_onleave) + "
                  "(1 if (old(self._session_id) is not None and old(self._session_id) != 0) else 0)",
                  "ghost.n_ondisconnect == old(ghost.n_ondisconnect) + 1"], **common)
+    build_errback(reg, common)
+    build_guards(reg, common)
     reg.contract(SESS + ".disconnect", params={"self": "obj:Session"}, modifies=["ghost.n_close"],
                  ensures=["ghost.n_close == old(ghost.n_close) + (1 if self._transport is not None else 0)"], **common)
+
+
+def build_errback(reg, common):
+    TABLES = ["_publish_reqs", "_subscribe_reqs", "_unsubscribe_reqs", "_call_reqs", "_register_reqs", "_unregister_reqs"]
+    reg.external("txaio.create_future_success", lambda ex, state, args, kwargs, sv: VOpaque(fresh_name("done_future")))
+    ens = []
+    for t in TABLES:
+        T = "self." + t
+        ens += [
+            "forall(k, 0, 2**53 + 1, k not in %s)" % T,                                      # nothing stays pending ...
+            # ... and every request that was pending is completed (with the given error unless it already was)
+            "forall(k, 0, 2**53 + 1, implies(old(k in %s), fut_done(old(%s[k].on_reply.addr))))" % (T, T),
+        ]
+    reg.contract(
+        SESS + "._errback_outstanding_requests", params={"self": "obj:Session", "exc": "any"}, returns="any",
+        modifies=["self." + t for t in TABLES] + ["Fut.done", "Fut.ok", "Fut.res_id", "ghost.n_completions"],
+        ensures=ens + ["forall(f, 0, 2**62, implies(old(fut_done(f)), fut_done(f)))"],
+        loops={"iter:outstanding": {"index": "_i", "invariant": [
+            "0 <= _i <= len(outstanding)",
+            "forall(j, 0, _i, fut_done(outstanding[j].on_reply.addr))",
+            "forall(f, 0, 2**62, implies(old(fut_done(f)), fut_done(f)))"] +
+            ["forall(k, 0, 2**53 + 1, k not in self.%s)" % t for t in TABLES],
+            "modifies": ["Fut.done", "Fut.ok", "Fut.res_id", "ghost.n_completions"], "pure_calls": True,
+            "vars": {"request": "sym:Request"}}},
+        **common)
+    # default onLeave / onDisconnect: every request still pending is failed
+    EMPTY = ["forall(k, 0, 2**53 + 1, k not in self.%s)" % t for t in TABLES]
+    MOD = ["self." + t for t in TABLES] + ["Fut.done", "Fut.ok", "Fut.res_id", "ghost.n_completions"]
+    reg.contract(SESS + ".onDisconnect", params={"self": "obj:Session"}, modifies=MOD, ensures=EMPTY, **common)
+    from pyvc import models
+    models.CLASS_MODELS["ApplicationError"] = lambda ex, state, args, kwargs: VOpaque(fresh_name("ApplicationError"))
+    models.CLASS_MODELS["TransportLost"] = lambda ex, state, args, kwargs: ex.mk_exc(state, "TransportLost")
+    reg.shape("CloseDetailsS", fields={"reason": "opt:str", "message": "opt:str"})
+    reg.contract(SESS + ".onLeave", params={"self": "obj:Session", "details": "obj:CloseDetailsS"}, returns="any",
+                 modifies=MOD, ensures=EMPTY, **common)
+
+
+def build_guards(reg, common):
+    """API calls made after the transport is gone fail immediately (TransportLost) instead of hanging: nothing is sent,
+    no request record is created"""
+    reg.contract(MSG + ":check_or_raise_uri", params={"value": "any", "message": "any", "strict": "bool",
+                                                      "allow_empty_components": "bool", "allow_last_empty": "bool",
+                                                      "allow_none": "bool"},
+                 returns="any", raises={"InvalidUriError": "True"}, verify=False, props=["C08"], spec_module="specs.wamp")
+    TABLES = ["_publish_reqs", "_subscribe_reqs", "_unsubscribe_reqs", "_call_reqs", "_register_reqs", "_unregister_reqs"]
+    UNCH = "ghost.n_sent == old(ghost.n_sent) and " + " and ".join(
+        "forall(k, 0, 2**53 + 1, (k in self.%s) == old(k in self.%s))" % (t, t) for t in TABLES)
+    RAISES = {"TransportLost": "True", "AssertionError": "True", "InvalidUriError": "True"}
+    cases = [
+        ("publish", {"self": "obj:Session", "topic": "str", "args": "tuple:", "kwargs": "cdict:options=none"}),
+        ("call", {"self": "obj:Session", "procedure": "str", "args": "tuple:", "kwargs": "cdict:options=none"}),
+        ("subscribe", {"self": "obj:Session", "handler": "func", "topic": "opt:str", "options": "none",
+                       "check_types": "opt:bool"}),
+        ("register", {"self": "obj:Session", "endpoint": "func", "procedure": "opt:str", "options": "none",
+                      "prefix": "opt:str", "check_types": "opt:bool"}),
+        ("_unsubscribe", {"self": "obj:Session", "subscription": "sym:Subscription"}),
+        ("_unregister", {"self": "obj:Session", "registration": "sym:Registration"}),
+    ]
+    for name, params in cases:
+        reg.contract(SESS + "." + name, name=SESS + ".%s[transport lost]" % name, params=params,
+                     requires=["self._transport is None"], ensures=["False"], raises=RAISES,
+                     raises_ensures={"*": [UNCH]}, raises_only=True, **common)
 
 
 def _ext_close(ex, state, args, kwargs, sv):
